@@ -22,6 +22,7 @@ import (
 	"github.com/conduitio/conduit-commons/database"
 	"github.com/conduitio/conduit/pkg/foundation/cerrors"
 	"github.com/conduitio/conduit/pkg/foundation/log"
+	"github.com/conduitio/conduit/pkg/foundation/verifhook"
 )
 
 const (
@@ -395,9 +396,11 @@ func (p *Persister) flushNow(ctx context.Context, batch map[string]persistData, 
 			err = setErr
 		}
 	}
+	verifhook.Point("connector.persister.before-commit")
 	if err == nil {
 		err = tx.Commit()
 	}
+	verifhook.Point("connector.persister.after-commit")
 	// Track every callback this flush spawns so WaitPendingWrites can observe
 	// not just "the write landed" but "every side effect the write's callback
 	// performs has also finished" — see flushState.callbacksDone. The
@@ -427,6 +430,7 @@ func (p *Persister) runCallbacks(batch map[string]persistData, st *flushState, p
 	for _, data := range batch {
 		go func(cb PersistCallback) {
 			defer cbWg.Done()
+			verifhook.Point("connector.persister.callback")
 			cb(err)
 		}(data.callback)
 	}
